@@ -53,6 +53,7 @@ type rawCfg struct {
 	pdURL          int            // > 0: global pagerduty_url override (a distinct URL per value)
 	pdRecv         bool           // the first receiver also has a pagerduty integration relying on the global URL
 	tiKind         map[string]int // body of each named time interval
+	nullKind       int            // > 0: the first receiver has `<kind>_configs: [null]`, the global block the settings that make it valid (F14)
 }
 
 func hx(s string) string {
@@ -384,13 +385,25 @@ func (c *rawCfg) yaml() string {
 	if c.decodeWhere == "top" {
 		b.WriteString(c.decodeFault)
 	}
-	if c.global || c.globalConflict {
+	if c.global || c.globalConflict || c.nullKind > 0 {
 		b.WriteString("global:\n  resolve_timeout: 7m\n  smtp_hello: example.org\n")
 		if c.pdURL > 0 {
 			fmt.Fprintf(&b, "  pagerduty_url: 'http://pagerduty-%d.example.org/enqueue'\n", c.pdURL)
 		}
 		if c.globalConflict {
 			b.WriteString("  opsgenie_api_key: abc\n  opsgenie_api_key_file: /tmp/k\n")
+		}
+		switch c.nullKind {
+		case 1:
+			b.WriteString("  slack_api_url_file: /tmp/s\n")
+		case 2:
+			if !c.globalConflict {
+				b.WriteString("  opsgenie_api_key_file: /tmp/k\n")
+			}
+		case 3:
+			b.WriteString("  wechat_api_secret_file: /tmp/w\n  wechat_api_corp_id: c\n")
+		case 4:
+			b.WriteString("  rocketchat_token_file: /tmp/t\n  rocketchat_token_id_file: /tmp/i\n")
 		}
 	}
 	if !c.noRoute && c.root != nil {
@@ -420,6 +433,10 @@ func (c *rawCfg) yaml() string {
 			if ri == 0 && c.pdRecv && r.hasName {
 				// relies on the global pagerduty_url (default or overridden): Config.UnmarshalYAML copies that URL in
 				b.WriteString("  pagerduty_configs:\n  - routing_key_file: /tmp/rk\n")
+			}
+			if ri == 0 && c.nullKind > 0 && r.hasName {
+				// a null entry: an integration that takes everything from the global block
+				b.WriteString("  " + []string{"slack", "opsgenie", "wechat", "rocketchat"}[c.nullKind-1] + "_configs: [null]\n")
 			}
 			if c.decodeWhere == "receiver" {
 				b.WriteString(c.decodeFault)
